@@ -47,8 +47,15 @@ HostsToks == {"UL55", "1.2.3.4", "::1", "fe80::1%eth0", "1.2.3.256", "name", "na
 NameToks == {"l", "d", "0", "-", "_", ".", "U", "u2", "FW.", "xn--", "RUN15", "RUN16", "RUN62", "RUN63", "RUN64",
              "RUN189", "BAD", "SP", "*", "UL55", "UL85"}
 
+(* JSON lexical grammar (for the UnmarshalJSON entry points, which encoding/json calls with a value *)
+(* but which a caller may hand any bytes): literals, insignificant white space, string and         *)
+(* structural characters, escapes.                                                                 *)
+JSONToks == {"null", "true", "false", "0", "-", "1e9", "QUOTE", "BSL", "{", "}", "[", "]", ",", ":",
+             "SP", "TAB", "NL", "CR", "http://h", "esc-u0041", "esc-ud800", "u2", "BAD", "NUL", "nul", "Null"}
+
 Alphabet ==
     CASE Family = "bytes"    -> ByteAlphabet
+      [] Family = "json"     -> JSONToks
       [] Family = "arpa"     -> ArpaLabels
       [] Family = "arparun"  -> ArpaLabels
       [] Family = "hostport" -> HostPortToks
